@@ -459,6 +459,13 @@ def small_trees(k, atoms):
 N_ = lambda s: ("num", s)
 V_ = lambda s: ("var", s)
 CORPUS = [   # (text, the tree the property says it denotes, value or None)
+    # `in` is a comparison: its right operand is a whole sum, also when that sum starts with a sign and a number literal follows
+    ("0 in -1 ± 2", ("cmp", ["in"], [N_("0"), ("bin", "±", ("sign", "-", N_("1")), N_("2"))]), 1),
+    ("5 in -3 + [4, 9]", ("cmp", ["in"], [N_("5"), ("bin", "+", ("sign", "-", N_("3")), ("interval", N_("4"), N_("9")))]), 1),
+    ("1 + 2 in -1 ± 2", ("cmp", ["in"], [("bin", "+", N_("1"), N_("2")), ("bin", "±", ("sign", "-", N_("1")), N_("2"))]), None),
+    ("0 in -2 * [-1, 2]", ("cmp", ["in"], [N_("0"), ("bin", "*", ("sign", "-", N_("2")), ("interval", ("sign", "-", N_("1")), N_("2")))]), 1),
+    ("3 in +2..5", ("cmp", ["in"], [N_("3"), ("range", ("sign", "+", N_("2")), N_("5"))]), 1),
+    ("2 in -5..5", ("cmp", ["in"], [N_("2"), ("range", ("sign", "-", N_("5")), N_("5"))]), 1),
     ("-2^2", ("bin", "^", ("sign", "-", N_("2")), N_("2")), 4),
     ("2^3^2", ("bin", "^", ("bin", "^", N_("2"), N_("3")), N_("2")), 64),
     ("-3!", ("sign", "-", ("fact", N_("3"))), -6),
